@@ -373,7 +373,18 @@ func malformedTx(r *hx.Rand, u *Universe, g *genState, aim *Impl, nUniverse int,
 			return nil, ""
 		}
 		long := append(make([]byte, 1+r.Intn(12)), other.Bytes()...)
-		switch r.Intn(4) {
+		switch r.Intn(5) {
+		case 4:
+			// a commitment whose entries are pieces of valid points: joined they would be a commitment, entry by entry
+			// none of them is a point
+			g0, g1 := u.ValidGamma(0), u.ValidGamma(1)
+			seq := [][][]byte{
+				{g0[:40], {}, g0[40:]},
+				{g0[:40], g0[40:]},
+				{g0, g1[:48], g1[48:]},
+				{append(append([]byte{}, g0...), g1...)},
+			}[r.Intn(4)]
+			p, class = Payload{Kind: "pc", A: e, Seq: seq}, "malformed:pc-entries-are-pieces-of-points"
 		case 3:
 			// a commitment one of whose points is on the curve but outside the group
 			off := OffSubgroupGamma(u.ValidGamma(1))
